@@ -306,6 +306,17 @@ void run_C02(void) {
             one_case(MN[ni], nrows, ncols, nrows + (mc % 3) - 1, ncols + ((mc / 3) % 3) - 1, mc % 3, cfg, (int)(mc % 5 == 0), 4000);
           }
   }
+  // vectors much longer than the matrix has rows, outputs much longer than it has columns (and the reverse): the sizes that are
+  // compared, subtracted and clamped inside the entry points differ by far more than one
+  {
+    static const uint64_t SH[][4] = {{1, 1, 24, 1}, {1, 1, 1, 24}, {2, 3, 40, 30}, {3, 2, 0, 17}, {5, 1, 33, 2}, {1, 5, 2, 33}, {4, 4, 4, 40}, {4, 4, 40, 4}, {30, 2, 3, 1}, {2, 30, 1, 3}};
+    for (size_t q = 0; q < ARRAY_LEN(SH); q++)
+      for (int native = 1; native >= 0; native--)
+        for (size_t ni = 0; ni < 3; ni++) {
+          static const uint64_t LN[] = {4, 16, 64};
+          one_case(LN[ni], SH[q][0], SH[q][1], SH[q][2], SH[q][3], (unsigned)q % 3, native, 0, 5000);
+        }
+  }
   // every row count 1..320 (no value of a size parameter is special to the property; blocked loops have their own ideas)
   for (uint64_t nrows = 1; nrows <= 320; nrows++) {
     const uint64_t N = (nrows & 1) ? 8 : 16, ncols = 1 + nrows % 3;
